@@ -28,6 +28,14 @@ pub fn u16_from_le_bytes(b: [u8; 2]) -> (r: u16)
     ensures r == de16(b@),
 { u16::from_le_bytes(b) }
 
+/// `u16::from_be_bytes` (std: most significant byte first).  Offered so that a
+/// change of the byte order in the extracted code still composes and is judged
+/// by the frame contract (which is little endian) instead of losing the rewrite.
+#[verifier::external_body]
+pub fn u16_from_be_bytes(b: [u8; 2]) -> (r: u16)
+    ensures r == ((b@[1] as u16) | ((b@[0] as u16) << 8)),
+{ u16::from_be_bytes(b) }
+
 /// `<[u8]>::to_vec`
 #[verifier::external_body]
 pub fn slice_to_vec(s: &[u8]) -> (r: Vec<u8>)
